@@ -27,6 +27,8 @@ def psi_function(geometry):
         "ldn_m": lambda R, Z: g(R, Z, 0.0) + g(R, Z, 2 * z0 + 0.002) + g(R, Z, -2 * z0),
         "udn_m": lambda R, Z: -g(R, Z, 0.0) - g(R, Z, 2 * z0) - g(R, Z, -2 * z0 - 0.003),
         "udn2": lambda R, Z: g(R, Z, 0.0) + g(R, Z, -2 * z0 - 0.02) + g(R, Z, 2 * z0),
+        # a lower single null whose X-point is tilted (lower lobe shifted in R): region joins oblique to the R and Z axes
+        "lsn_tilt": lambda R, Z: g(R, Z, 0.3 - z0) + np.exp(-((R - (r0 + 0.08)) ** 2 + (Z - (-0.3 - z0)) ** 2) / 0.3**2),
         # a second lobe wholly inside the wall: the separatrix closes round it and the divertor legs never reach the wall
         "closed": lambda R, Z: (np.exp(-((R - 1.5) ** 2 + (Z - 0.1) ** 2) / 0.2**2) + np.exp(-((R - 1.5) ** 2 + (Z + 0.3) ** 2) / 0.2**2)
                                + 0.8 * np.exp(-((R - 1.82) ** 2 + (Z + 0.32) ** 2) / 0.13**2)),
